@@ -8,5 +8,6 @@ CONSTANTS
   MaxWedged = 1
   MaxBurst = 4
   MaxHold = 2
+  MaxSick = 2
   Depth = 20
 CHECK_DEADLOCK FALSE
